@@ -74,9 +74,25 @@ type recorder struct {
 	calls  []dcallT
 	script []int
 	idx    int
+	// max > 0: the largest number of destination calls the whole history can possibly cause (every byte of
+	// every line its own call, plus slack).  A writer that goes beyond it is in a loop (e.g. a release loop that
+	// does not advance on an unterminated line): the destination stops it by panicking, which doOp records as
+	// the operation's outcome, instead of the driver being killed for memory with every earlier verdict lost.
+	max int
 }
 
+// floodT is what the recording destination panics with when it is flooded
+type floodT struct{ calls int }
+
+var (
+	floodCount int
+	floodFirst string
+)
+
 func (r *recorder) record(hasLevel bool, l zerolog.Level, p []byte) (int, error) {
+	if r.max > 0 && len(r.calls) >= r.max {
+		panic(floodT{len(r.calls)})
+	}
 	r.calls = append(r.calls, dcallT{HasLevel: hasLevel, Level: int(l), Bytes: append([]byte(nil), p...)})
 	o := -1
 	if r.idx < len(r.script) {
@@ -114,6 +130,12 @@ func doOp(w *zerolog.TriggerLevelWriter, o opT) (res obsT) {
 	defer func() {
 		if r := recover(); r != nil {
 			res = obsT{Ret: "panic"}
+			if f, ok := r.(floodT); ok {
+				floodCount++
+				if floodFirst == "" {
+					floodFirst = fmt.Sprintf("operation %s (level %d, line %q) made the destination receive more than %d calls", o.Kind, o.Level, o.Line, f.calls)
+				}
+			}
 		}
 	}()
 	var n int
@@ -140,7 +162,10 @@ func closeQuietly(w *zerolog.TriggerLevelWriter) {
 
 // runCase runs the history on the real TriggerLevelWriter.
 func runCase(cs *caseT) []obsT {
-	r := &recorder{script: cs.Script}
+	r := &recorder{script: cs.Script, max: len(cs.Ops) + 16}
+	for _, o := range cs.Ops {
+		r.max += len(o.Line) + 1
+	}
 	w := newWriter(cs, r)
 	out := make([]obsT, len(cs.Ops))
 	for i, o := range cs.Ops {
@@ -567,4 +592,8 @@ func runC15(c *Ctx) {
 
 	// 7. concurrent runs
 	runConcurrent(c)
+
+	if floodCount > 0 {
+		c.Res.Broken = append(c.Res.Broken, fmt.Sprintf("TriggerLevelWriter did not terminate on its own in %d operation(s): the recording destination stopped it after more calls than the history has bytes; first: %s", floodCount, floodFirst))
+	}
 }
